@@ -160,6 +160,17 @@ def tlv_walk_oracle(sec: bytes):
     return out
 
 
+def tlv_boundary_sections(rng):
+    """Raw TLV sections whose value lengths sit at the byte / u16 boundaries with the value actually
+    present (so a raw slice may exceed 65 535 bytes), alone, followed by another item, cut short by
+    one byte, and followed by leftovers."""
+    out = []
+    for ln in (0, 1, 255, 256, 257, 32767, 32768, 65531, 65532, 65533, 65534, 65535):
+        s = tlv_enc(rng.choice([4, 0x20, 0xFF]), bytes([0xAB]) * ln)
+        out += [s, s + tlv_enc(5, b"x"), s[:-1], s + b"\x01\x00", tlv_enc(1, b"ab") + s + tlv_enc(2, b"")]
+    return out
+
+
 def gen_control_space(rng, tier):
     """All 65 536 control pairs, with length / presence relations (C02, C12, C17)."""
     ops = []
